@@ -180,6 +180,27 @@ structure DRAcc where
   /-- the call-local `tombstones` map, in insertion order -/
   tombs : List (Key × List TimeRange) := []
 
+/-- the body of the `DeleteRange` loop for an index key that is the head of the cursor:
+    the updated accumulator and whether the cursor advances (`keys = keys[1:]`) -/
+def drBody (ix : Index) (lo hi : Int) (ke : KeyEntry) (acc : DRAcc) : DRAcc × Bool :=
+  match ke.entries.head?, ke.entries.getLast? with
+  | some e0, some eN =>
+    let mn := e0.MinTime
+    let mx := eN.MaxTime
+    -- the range is outside the key's time span
+    if lo > mx || hi < mn then (acc, false)
+    -- the range covers every value of the key
+    else if lo ≤ mn && hi ≥ mx then ({ acc with full := ke.key :: acc.full }, true)
+    else
+      let local_ := match acc.tombs.find? (·.1 = ke.key) with
+        | some p => p.2
+        | none => []
+      let newTs := sortTR (tombRange ix ke.key ++ (local_ ++ [⟨lo, hi⟩]))
+      let acc := { acc with tombs := mapSet acc.tombs ke.key newTs }
+      let w := window newTs
+      if w.1 ≤ mn && w.2 ≥ mx then ({ acc with full := ke.key :: acc.full }, true) else (acc, false)
+  | _, _ => (acc, false)      -- `len(entries) == 0`
+
 /-- the loop of `DeleteRange` over the live keys with the cursor `keys` -/
 def drLoop (ix : Index) (lo hi : Int) : List KeyEntry → List Key → DRAcc → DRAcc
   | [], _, acc => acc
@@ -188,22 +209,9 @@ def drLoop (ix : Index) (lo hi : Int) : List KeyEntry → List Key → DRAcc →
     | [] => acc
     | k :: ks =>
       if k ≠ ke.key then drLoop ix lo hi rest (k :: ks) acc
-      else match ke.entries.head?, ke.entries.getLast? with
-        | some e0, some eN =>
-          let mn := e0.MinTime
-          let mx := eN.MaxTime
-          if lo > mx || hi < mn then drLoop ix lo hi rest (k :: ks) acc
-          else if lo ≤ mn && hi ≥ mx then drLoop ix lo hi rest ks { acc with full := k :: acc.full }
-          else
-            let local_ := match acc.tombs.find? (·.1 = ke.key) with
-              | some p => p.2
-              | none => []
-            let newTs := sortTR (tombRange ix ke.key ++ (local_ ++ [⟨lo, hi⟩]))
-            let acc := { acc with tombs := mapSet acc.tombs ke.key newTs }
-            let w := window newTs
-            if w.1 ≤ mn && w.2 ≥ mx then drLoop ix lo hi rest ks { acc with full := k :: acc.full }
-            else drLoop ix lo hi rest (k :: ks) acc
-        | _, _ => drLoop ix lo hi rest (k :: ks) acc
+      else
+        let r := drBody ix lo hi ke acc
+        drLoop ix lo hi rest (if r.2 then ks else k :: ks) r.1
 
 /-- `indirectIndex.DeleteRange(keys, minTime, maxTime)` -/
 def deleteRange (ix : Index) (keys : List Key) (lo hi : Int) : Index :=
